@@ -273,6 +273,7 @@ class Kernel:
         self.arbiter = None
         self.quiescences = 0
         self.in_midflight = False
+        self.script_done_point = None     # npoints when the scripted history was over and settling began
         # children of the master that are not workers (e.g. helpers forked by a server hook)
         for _ in range(other_children):
             p = SimProc(self.next_pid, "other", master_pid)
@@ -351,8 +352,15 @@ class Kernel:
             for p in self.children():
                 if p.kind == "master2" and p.alive:
                     self.die(p, ev[1])
-        elif kind == "parent-exit":
+        elif kind in ("parent-exit", "parent-killed"):
+            old = self.ppid
             self.ppid = 1
+            self.fs.live.discard(old)
+            if kind == "parent-exit":
+                # an orderly exit of the old master removes its own pid file
+                for path, ino in list(self.fs.files.items()):
+                    if ino.data == b"%d\n" % old:
+                        del self.fs.files[path]
         elif kind == "tick":
             self.advance(1.0)
         else:
@@ -538,6 +546,8 @@ class Kernel:
                         ev = k.script[k.script_pos]
                         k.script_pos += 1
                     elif k.settled < k.settle:
+                        if k.script_done_point is None:
+                            k.script_done_point = k.npoints
                         k.settled += 1
                         ev = ("tick",)
                     else:
